@@ -1,6 +1,6 @@
 (* C03 correspondence cases: an input together with what quill answered, compared with the model *)
 From Coq Require Export ZArith Uint63.
-From FB Require Export C03.Model Base.Run.
+From FB Require Export C03.Model C03.ModelBytes Base.Run.
 
 (* Case files carry every string as a short list of primitive 63-bit integers (coqc needs
    about 0.1 ms to read one numeral of type N, and a case holds thousands of code points):
@@ -38,6 +38,9 @@ Fixpoint utf8_dec (bs : list N) : str :=
   end.
 Definition u (l : list int) : str := utf8_dec (flat_map int_bytes l).
 Arguments u l%uint63.
+(* raw bytes (files that need not be UTF-8) *)
+Definition ub (l : list int) : list N := flat_map int_bytes l.
+Arguments ub l%uint63.
 
 (* outcome of quill::tiny_v2::write_string on the implementation side *)
 Inductive wres := WOk (t : text) | WErr | WPanic.
@@ -60,6 +63,8 @@ Inductive case :=
 | CRead (n : N) (t : text) (r : res mappings)
     (* read::<n> of the text t; the result in IndexMap iteration order (compared exactly:
        the reader keeps the order of the lines) *)
+| CReadBytes (n : N) (bs : list N) (r : res mappings)
+    (* read::<n> of the BYTES bs (any bytes, not necessarily UTF-8) against the byte-level model *)
 | CWriteRead (M : mappings) (hyp : bool) (w : wres) (r : res mappings).
     (* write_string M = w and, when w is a text, read::<number of namespaces of M> of it = r;
        hyp: the harness' copy of the theorems' hypotheses (wf M && textual M) agrees with Coq's *)
@@ -68,6 +73,7 @@ Definition check (c : case) : bool :=
   match c with
   | CWrite M w => wres_eqb (write_res M) w
   | CRead n t r => res_eqb mappings_eqb (read (N.to_nat n) t) r
+  | CReadBytes n bs r => res_eqb mappings_eqb (read_bytes (N.to_nat n) bs) r
   | CWriteRead M hyp w r =>
       Bool.eqb (wf M && textual M) hyp &&
       wres_eqb (write_res M) w &&
